@@ -2,7 +2,7 @@
     durations, well-formed foreign master lists, port identities = (clock,
     index+1).  Under it no handler panics (C03) — this file: definitions and the
     arithmetic facts; InvHandlers.v / InvBmca.v / InvStep.v build on it. *)
-From SV Require Export Time.TimeCases Time.TimeLemmas Wire.WireLemmas Port.Instance Port.LemmasC06
+From SV Require Export Time.TimeCases Time.TimeLemmas Wire.WireBytes Wire.WireLemmas Port.Instance Port.LemmasC06
      Port.OracleC10 Port.LemmasC10 Port.OracleC15 Port.LemmasC15 Port.LemmasC03.
 
 (** * Ranges *)
@@ -38,15 +38,41 @@ Definition peer_ok (x : peer_state) : Prop :=
   | _ => True
   end.
 
-(** stored Announces carry a u16 stepsRemoved (non-negative in the Z model) *)
+(** stored Announces are well-formed wire values (they were decoded from octets) *)
+Definition stored_wf (m : foreign_msg) : Prop := wf_header (fm_header m) /\ wf_ann (fm_ann m).
 Definition fml_nn (l : list foreign_master) : Prop :=
-  Forall (fun fm => Forall (fun m => 0 <= an_steps_removed (fm_ann m)) (fmr_msgs fm)) l.
+  Forall (fun fm => Forall stored_wf (fmr_msgs fm)) l.
 Definition fml_ok (own : port_identity) (l : list foreign_master) : Prop := fml_wf own l /\ fml_nn l.
+
+(** identity and sequence counters are wire values (boolean, so that the state
+    updaters preserve it by conversion) *)
+Definition u_ok (bits x : Z) : bool := (0 <=? x) && (x <? 2 ^ bits).
+Definition port_wfb (p : port) : bool :=
+  u_ok 64 (pi_clock (p_identity p)) && (1 <=? pi_port (p_identity p)) && (pi_port (p_identity p) <? 65536)
+  && u_ok 16 (p_seq_announce p) && u_ok 16 (p_seq_sync p) && u_ok 16 (p_seq_delay p) && u_ok 16 (p_seq_pdelay p).
 
 Definition port_inv (p : port) : Prop :=
   cfg_ok (p_config p) /\ pstate_ok (p_state p) /\ peer_ok (p_peer p) /\ od_ok (p_mean_delay p)
   /\ fml_ok (p_identity p) (p_fml p)
-  /\ (pc_master_only (p_config p) = true -> is_slave (p_state p) = false).
+  /\ (pc_master_only (p_config p) = true -> is_slave (p_state p) = false)
+  /\ port_wfb p = true.
+
+(** the instance data sets hold wire values *)
+Definition cq_wfb (q : clock_quality) : bool :=
+  u_ok 8 (cq_class q) && u_ok 8 (cq_accuracy q) && (canon_accuracy (cq_accuracy q) =? cq_accuracy q)
+  && u_ok 16 (cq_variance q).
+Definition tp_wfb (t : time_props) : bool :=
+  match tp_utc_offset t with Some v => (-32768 <=? v) && (v <? 32768) | None => true end
+  && (0 <=? tp_leap t) && (tp_leap t <=? 2) && u_ok 8 (tp_time_source t).
+Definition dd_wfb (d : default_ds) : bool :=
+  u_ok 64 (dd_clock_identity d) && cq_wfb (dd_quality d) && u_ok 8 (dd_prio1 d) && u_ok 8 (dd_prio2 d)
+  && u_ok 8 (dd_domain d) && u_ok 12 (dd_sdo_id d).
+Definition pd_wfb (p : parent_ds) : bool :=
+  u_ok 64 (pi_clock (pd_parent p)) && u_ok 16 (pi_port (pd_parent p)) && u_ok 64 (pd_gm_identity p)
+  && cq_wfb (pd_gm_quality p) && u_ok 8 (pd_gm_prio1 p) && u_ok 8 (pd_gm_prio2 p).
+Definition ds_wfb (d : inst_ds) : bool :=
+  dd_wfb (ds_default d) && u_ok 16 (ds_steps_removed d) && pd_wfb (ds_parent d)
+  && forallb (u_ok 64) (ds_path d) && tp_wfb (ds_tp d).
 
 (** * Time arithmetic inside the ranges *)
 Lemma time_diff_ok a b : t_ok a -> t_ok b -> time_diff a b = Ok (a - b) /\ - TB <= a - b <= TB.
@@ -108,7 +134,7 @@ Proof. unfold ts_valid, in_range_ts. lia. Qed.
 
 (** * Non-negativity of stored stepsRemoved is preserved by every list operation *)
 Lemma fml_register_nn own ti l h a age :
-  fml_nn l -> 0 <= an_steps_removed a -> fml_nn (fml_register own ti l h a age).
+  fml_nn l -> wf_header h /\ wf_ann a -> fml_nn (fml_register own ti l h a age).
 Proof.
   intros Hl Ha. unfold fml_register.
   destruct (negb (fml_qualified own l h a)); [exact Hl|].
@@ -132,7 +158,7 @@ Proof.
   rewrite Forall_forall in *. intros fm' Hin. apply in_map_iff in Hin. destruct Hin as [fm [Heq Hin]].
   subst fm'. specialize (Hl fm Hin). unfold fm_step_age. cbn [fmr_msgs].
   apply Forall_filter. rewrite Forall_forall in *. intros m' Hm'.
-  apply in_map_iff in Hm'. destruct Hm' as [m [Heq Hm]]. subst m'. cbn. apply Hl. exact Hm.
+  apply in_map_iff in Hm'. destruct Hm' as [m [Heq Hm]]. subst m'. exact (Hl m Hm).
 Qed.
 
 Lemma fml_take_qualified_nn l : fml_nn l -> fml_nn (fst (fml_take_qualified l)).
@@ -145,11 +171,11 @@ Proof.
 Qed.
 
 Lemma erbest_nn own acc ti l l' b :
-  fml_nn l -> bmca_take_best own acc ti l = Ok (l', Some b) -> 0 <= an_steps_removed (b_ann b).
+  fml_nn l -> bmca_take_best own acc ti l = Ok (l', Some b) -> wf_header (b_header b) /\ wf_ann (b_ann b).
 Proof.
-  intros Hl H. destruct (erbest_needs_two _ _ _ _ _ _ H) as (fm & m & Hfm & _ & Hm & _ & Ha & _).
+  intros Hl H. destruct (erbest_needs_two _ _ _ _ _ _ H) as (fm & m & Hfm & _ & Hm & Hh & Ha & _).
   unfold fml_nn in Hl. rewrite Forall_forall in Hl. specialize (Hl fm Hfm).
-  rewrite Forall_forall in Hl. rewrite Ha. apply Hl. exact Hm.
+  rewrite Forall_forall in Hl. rewrite Hh, Ha. apply Hl. exact Hm.
 Qed.
 
 Lemma bmca_take_best_nn own acc ti l l' ob :
@@ -168,4 +194,55 @@ Lemma bmca_take_best_ok own acc ti l l' ob :
   fml_ok own l -> bmca_take_best own acc ti l = Ok (l', ob) -> fml_ok own l'.
 Proof.
   intros [A B] H. split; [eapply bmca_take_best_wf; eauto|eapply bmca_take_best_nn; eauto].
+Qed.
+
+(** * Wire-value facts used to maintain [ds_wfb] *)
+Lemma u_ok_iff bits x : u_ok bits x = true <-> 0 <= x < 2 ^ bits.
+Proof. unfold u_ok. rewrite andb_true_iff, Z.leb_le, Z.ltb_lt. tauto. Qed.
+
+Lemma cq_wfb_of q : wf_cq q -> cq_wfb q = true.
+Proof.
+  intros (A & B & C & D). unfold cq_wfb. rewrite !(proj2 (u_ok_iff _ _)) by (change (2 ^ 8) with 256; change (2 ^ 16) with 65536; lia).
+  rewrite C, Z.eqb_refl. reflexivity.
+Qed.
+
+Lemma ann_tp_wfb h a : wf_ann a -> tp_wfb (ann_time_props h a) = true.
+Proof.
+  intros (_ & Hu & _ & _ & _ & _ & _ & Hs). unfold tp_wfb, ann_time_props. cbn [tp_utc_offset tp_leap tp_time_source].
+  rewrite (proj2 (u_ok_iff 8 _)) by (change (2 ^ 8) with 256; lia).
+  destruct (h_utc_valid h); destruct (h_leap59 h); destruct (h_leap61 h); cbn; lia.
+Qed.
+
+Lemma ann_pd_wfb h a :
+  wf_header h -> wf_ann a ->
+  pd_wfb (mkPD (h_source h) (an_gm_identity a) (an_quality a) (an_prio1 a) (an_prio2 a)) = true.
+Proof.
+  intros (_ & _ & _ & _ & _ & [Hc Hp] & _) (_ & _ & H1 & Hq & H2 & Hg & _). unfold pd_wfb.
+  cbn [pd_parent pd_gm_identity pd_gm_quality pd_gm_prio1 pd_gm_prio2].
+  rewrite (cq_wfb_of _ Hq).
+  rewrite !(proj2 (u_ok_iff _ _)) by (change (2 ^ 8) with 256; change (2 ^ 16) with 65536; change (2 ^ 64) with 18446744073709551616; lia).
+  reflexivity.
+Qed.
+
+Lemma chunks8_wfb fuel : forall b, bok b -> forallb (u_ok 64) (chunks8 fuel b) = true.
+Proof.
+  induction fuel as [|fuel IH]; intros b Hb; cbn [chunks8]; [reflexivity|].
+  destruct (8 <=? length b)%nat; [|reflexivity]. cbn [forallb].
+  rewrite IH by (apply bok_skipn; exact Hb).
+  pose proof (be_decode_bound_le (firstn 8 b) 8 (bok_firstn 8 b Hb) (firstn_le_length 8 b)) as H.
+  rewrite P8 in H. rewrite (proj2 (u_ok_iff 64 _)) by (change (2 ^ 64) with 18446744073709551616; lia). reflexivity.
+Qed.
+
+Lemma tlvset_iter_bok fuel : forall b, bok b -> Forall (fun t => bok (tlv_value t)) (tlvset_iter fuel b).
+Proof.
+  induction fuel as [|fuel IH]; intros b Hb; cbn [tlvset_iter]; [constructor|].
+  destruct (blen b <? 4); [constructor|]. constructor.
+  - cbn [tlv_value]. apply bok_slice. exact Hb.
+  - apply IH. apply bok_skipn. exact Hb.
+Qed.
+
+Lemma find_tlv_in t l x : find_tlv t l = Some x -> In x l.
+Proof.
+  induction l as [|y l IH]; cbn [find_tlv]; [discriminate|].
+  destruct (tlv_type y =? t); [intros H; inversion H; subst; left; reflexivity|intros H; right; apply IH; exact H].
 Qed.
